@@ -78,6 +78,33 @@ class _Done:
         return pickle.loads(self.blob)
 
 
+USED = [0]      # tasks served by PicklingSyncPool (tells whether a call really took the pooled branch)
+
+
+class pool_installed:
+    """context manager: make depccg.parsing use `pool_cls` wherever it gets its Pool from — the name it imported
+    (`from multiprocessing import Pool`) and the `multiprocessing` / `multiprocessing.pool` modules themselves"""
+
+    def __init__(self, pool_cls):
+        self.pool_cls = pool_cls
+        self.saved = []
+
+    def __enter__(self):
+        import multiprocessing
+        import multiprocessing.pool
+        import depccg.parsing
+        for mod in (depccg.parsing, multiprocessing, multiprocessing.pool):
+            if hasattr(mod, 'Pool'):
+                self.saved.append((mod, mod.Pool))
+                mod.Pool = self.pool_cls
+        return self
+
+    def __exit__(self, *a):
+        for mod, old in self.saved:
+            mod.Pool = old
+        return False
+
+
 class PicklingSyncPool:
     """stands in for multiprocessing.Pool in depccg.parsing: every task runs at once in this process, but its
     arguments and its result cross a pickle boundary exactly as they would between processes.  The code under
@@ -93,10 +120,46 @@ class PicklingSyncPool:
     def __exit__(self, *a):
         return False
 
+    def _call(self, func, args=(), kwds=None):
+        import pickle
+        a2, k2 = pickle.loads(pickle.dumps((tuple(args), dict(kwds or {}))))
+        USED[0] += 1
+        return pickle.dumps(func(*a2, **k2))
+
     def apply_async(self, func, args=(), kwds={}, callback=None, error_callback=None):
         import pickle
-        a2, k2 = pickle.loads(pickle.dumps((args, kwds)))
-        res = func(*a2, **k2)
+        blob = self._call(func, args, kwds)
+        if callback is not None:
+            callback(pickle.loads(blob))
+        return _Done(blob)
+
+    def apply(self, func, args=(), kwds={}):
+        import pickle
+        return pickle.loads(self._call(func, args, kwds))
+
+    def map(self, func, iterable, chunksize=None):
+        import pickle
+        return [pickle.loads(self._call(func, (x,))) for x in iterable]
+
+    def imap(self, func, iterable, chunksize=1):
+        return iter(self.map(func, iterable))
+
+    imap_unordered = imap
+
+    def starmap(self, func, iterable, chunksize=None):
+        import pickle
+        return [pickle.loads(self._call(func, tuple(x))) for x in iterable]
+
+    def map_async(self, func, iterable, chunksize=None, callback=None, error_callback=None):
+        import pickle
+        res = self.map(func, iterable)
+        if callback is not None:
+            callback(res)
+        return _Done(pickle.dumps(res))
+
+    def starmap_async(self, func, iterable, chunksize=None, callback=None, error_callback=None):
+        import pickle
+        res = self.starmap(func, iterable)
         if callback is not None:
             callback(res)
         return _Done(pickle.dumps(res))
@@ -131,16 +194,27 @@ def run_parser(case, grammar, sentences=None, via_pool=False, **override):
     cfg.update(override)
     del rt.unraisable[:]
     del rt.faults[:]
-    if via_pool:
-        real_pool = depccg.parsing.Pool
-        depccg.parsing.Pool = PicklingSyncPool
-        cfg['max_chunk_size'] = 0
-        try:
-            results = depccg.parsing.run(docs, scores, cats, roots, grammar.binary, grammar.unary, **cfg)
-        finally:
-            depccg.parsing.Pool = real_pool
-    else:
-        results = depccg.parsing.run(docs, scores, cats, roots, grammar.binary, grammar.unary, **cfg)
+    def call(roots_):
+        if via_pool and len(docs) >= 2:
+            # (more sentences than max_chunk_size = 1: the multi-process branch)
+            cfg['max_chunk_size'] = 1
+            with pool_installed(PicklingSyncPool):
+                return depccg.parsing.run(docs, scores, cats, roots_, grammar.binary, grammar.unary, **cfg)
+        return depccg.parsing.run(docs, scores, cats, roots_, grammar.binary, grammar.unary, **cfg)
+    try:
+        results = call(roots)
+    except Exception:
+        if len(set(roots)) < len(roots):
+            # a root named twice is accepted today; a library that refuses it (as it refuses repeated categories)
+            # breaks no statement: if the call goes through without the repetition the case is out of the domain
+            from vlib.runner import OutOfDomain
+            try:
+                call(list(dict.fromkeys(roots)))
+            except Exception:
+                pass
+            else:
+                raise OutOfDomain('repeated root categories are refused')
+        raise
     faults = [f'{type(e).__name__}: {e}' for e in rt.unraisable] + list(rt.faults)
     return results, docs, faults
 
@@ -156,9 +230,9 @@ def snap(tree):
 
 
 def is_placeholder(trees):
-    """exactly the documented failure placeholder: one FAILED/NP leaf with score -inf"""
+    """the failure placeholder: a single one-leaf tree over the word FAILED with score -inf (which other token
+    attributes or which category the leaf carries is not part of any statement)"""
     if len(trees) != 1:
         return False
     t, s = trees[0].tree, trees[0].score
-    return (t.is_leaf and str(t.cat) == 'NP' and dict(t.token) == {'word': 'FAILED'}
-            and s == float('-inf'))
+    return bool(t.is_leaf and t.token.get('word') == 'FAILED' and s == float('-inf'))
